@@ -240,6 +240,11 @@ Fixpoint listing_op (env : denv) (o : op) : ctx -> Z * Z -> list entry :=
 Definition listing (env : denv) (ns : list node) : list entry := listing_op env (OComp 1 ns) None (0, 0).
 
 (* ------------------------------------------------------------------ building: add_to_graph *)
+(* CircuitGraphBranch.get_latest_node_of: the LAST listed node among the given ones (latest in relation steps, not in time),
+   so that an operation related to a group is listed after the entire group *)
+Definition latest_of (ns : list node) (ps : list nat) : option nat :=
+  find (fun i => existsb (Nat.eqb i) ps) (rev (bfs (parents ns))).
+
 Definition add_node (env : denv) (ns : list node) (o : op) (l : link) : list node :=
   let lf := leaf_at_any ns (op_channels o) in
   let implicit := match lf with
@@ -250,7 +255,7 @@ Definition add_node (env : denv) (ns : list node) (o : op) (l : link) : list nod
           | LNone => implicit
           | LDangling _ => implicit                  (* reference not in graph: relation ignored (with a warning) *)
           | LRel t p => if Nat.ltb p (length ns) then Node (Some p) l o else implicit
-          | LMulti ps => match multi_ref (node_times env None ns) ps with
+          | LMulti ps => match latest_of ns ps with       (* get_latest_node_of: the member latest in relation steps *)
                          | None => implicit
                          | Some p => Node (Some p) l o
                          end
@@ -418,11 +423,10 @@ Fixpoint gmulti_ref_from (g : list (path * (Z * Z))) (ps : list path) (best : pa
   end.
 
 (* Re-insertion of the decomposed listing into an empty graph.  A link whose referent is a vanished sub-circuit (or is not yet
-   present) takes add_to_graph's fallback branch; so does a multi-link whose latest-ending member is a sub-circuit.  A multi-link
-   that stays attached to a leaf while another member of its group is a sub-circuit is outside the model (the implementation
-   then keeps consulting the stale nested graph: finding F10) -> None. *)
+   present) takes add_to_graph's fallback branch; so does a multi-link none of whose members is present.  A multi-link that
+   stays attached to a leaf while another member of its group is a sub-circuit is outside the model (the implementation
+   then keeps consulting the stale nested graph for its times: finding F10) -> None. *)
 Definition flatten (env : denv) (ns : list node) : option (list node) :=
-  let g := gtimes env ns in
   option_map fst (fold_left (fun (st : option (list node * list (path * nat))) (e : path * leaf * glink) =>
                match st with
                | None => None
@@ -433,13 +437,13 @@ Definition flatten (env : denv) (ns : list node) : option (list node) :=
                              | GDangling t => Some (LDangling t)
                              | GRel t tg => match plookup m tg with Some q => Some (LRel t q) | None => Some (LDangling t) end
                              | GMulti [] => Some LNone
-                             | GMulti (t0 :: ts) =>
-                                 match plookup m (gmulti_ref_from g ts t0) with
-                                 | None => Some (LDangling RelationType_FOLLOWED_BY)
-                                 | Some _ => match all_some (map (plookup m) (t0 :: ts)) with
-                                             | Some qs => Some (LMulti qs)
-                                             | None => None
-                                             end
+                             | GMulti tgs =>
+                                 match filter_map (plookup m) tgs with
+                                 | [] => Some (LDangling RelationType_FOLLOWED_BY)      (* no member present: fallback *)
+                                 | _ => match all_some (map (plookup m) tgs) with
+                                        | Some qs => Some (LMulti qs)
+                                        | None => None                                   (* a member is a vanished sub-circuit *)
+                                        end
                                  end
                              end in
                    match lk with
